@@ -323,6 +323,11 @@ pub assume_specification[ GraphColoredVertices::pick_color ](a: &GraphColoredVer
 pub assume_specification[ GraphColoredVertices::pick_singleton ](a: &GraphColoredVertices) -> (r: GraphColoredVertices);
 pub assume_specification[ GraphColoredVertices::is_singleton ](a: &GraphColoredVertices) -> (r: bool);
 pub assume_specification[ GraphColoredVertices::copy ](a: &GraphColoredVertices, bdd: Bdd) -> (r: GraphColoredVertices);
+#[verifier::external_type_specification] #[verifier::external_body] pub struct ExParameterId(ParameterId);
+#[verifier::external_type_specification] #[verifier::external_body] pub struct ExParameterIdIterator(ParameterIdIterator);
+pub assume_specification[ SymbolicContext::network_parameters ](c: &SymbolicContext) -> (r: ParameterIdIterator);
+pub assume_specification[ SymbolicContext::network_implicit_parameters ](c: &SymbolicContext) -> (r: Vec<VariableId>);
+pub assume_specification[ ParameterIdIterator::next ](it: &mut ParameterIdIterator) -> (r: Option<ParameterId>);
 // ---- commutativity of the set operations (extensional facts the solver does not find by itself when a commuted operand pair sits INSIDE an
 //      argument of another specification function): used by `broadcast use` in the units whose contracts mention such terms
 pub mod iset_laws {
